@@ -49,14 +49,16 @@ def what_of(v):
 def run(ctx, cases_override=None):
     th = ctx.thorough
     # ---- MC: DispatchC08 |= Inv_C08 (Doc = Impl for every name x mechanism x scenario)
-    if th:
-        mc = ctx.tlc("DispatchC08", "c08_mc.cfg", files={"c08_mc.cfg": cfg(0, 2, range(5), [0, 1, 2], False, ["lint", "ci"], MC_INV)},
-                     timeout=3000, allow_violation=True, workers=W)
-        mcs = [mc, ctx.tlc("DispatchC08", "c08_mc2.cfg", files={"c08_mc2.cfg": cfg(1, 1, [1, 3], [0], True, ["lint"], MC_INV)},
+    mcs = []
+    if cases_override is None:   # a replay only re-executes the stored case
+        if th:
+            mc = ctx.tlc("DispatchC08", "c08_mc.cfg", files={"c08_mc.cfg": cfg(0, 2, range(5), [0, 1, 2], False, ["lint", "ci"], MC_INV)},
+                         timeout=3000, allow_violation=True, workers=W)
+            mcs = [mc, ctx.tlc("DispatchC08", "c08_mc2.cfg", files={"c08_mc2.cfg": cfg(1, 1, [1, 3], [0], True, ["lint"], MC_INV)},
+                               timeout=3000, allow_violation=True, workers=W)]
+        else:
+            mcs = [ctx.tlc("DispatchC08", "c08_mc.cfg", files={"c08_mc.cfg": cfg(0, 2, [1, 3], [0, 1, 2], False, ["lint", "ci"], MC_INV)},
                            timeout=3000, allow_violation=True, workers=W)]
-    else:
-        mcs = [ctx.tlc("DispatchC08", "c08_mc.cfg", files={"c08_mc.cfg": cfg(0, 2, [1, 3], [0, 1, 2], False, ["lint", "ci"], MC_INV)},
-                       timeout=3000, allow_violation=True, workers=W)]
     leads = [m["invariant_violated"] for m in mcs if m["invariant_violated"]]
     # ---- GEN
     if cases_override is None:
@@ -98,6 +100,16 @@ def run(ctx, cases_override=None):
     runs = [r for r in trace if r["ev"] == "Run"]
     bases = [r for r in trace if r["ev"] == "Base"]
     reporters = sorted({p["r"] for b in bases for p in b["reports"]})
+    # vacuity guard: the relational predicate says nothing about a name that never reports in any base run
+    if cases_override is None:
+        import re
+        with open(os.path.join(vlib.SPEC_DIR, "Dispatch.tla")) as f:
+            m = re.search(r"CheckNames == <<(.*?)>>", f.read(), re.S)
+        names = set(re.findall(r'"([^"]+)"', m.group(1)))
+        silent = sorted(names - set(reporters))
+        if len(names) != 27 or silent:
+            raise MachineryError("vacuous: no base run of this tier reports a problem under %s (rule files / scenarios no longer "
+                                 "trigger these checks on this tree)" % silent)
     changed = sum(1 for r in runs if {(p["r"], p["k"]) for p in r["reports"]} !=
                   {(p["r"], p["k"]) for p in bases[r["scen"] - 1]["reports"]})
     sample_i = len(runs) // 3
